@@ -468,7 +468,8 @@ def spec_from_bytes(data):
     ev = {'src': 'A0', 'to': 0, 'how': 'client', 'name': 'ping', 'args': ['x'], 'kwargs': {'k': 1}, 'channels': ['c0'],
           'flags': [False, False, False], 'meta': {}, 'kind': 'plain', 'slow': 1, 'tamper_call': {}, 'tamper_value': {}}
     return {'clients': 1, 'fw': {}, 'cuts': {'sizes': [size], 'burst': 0},
-            'waves': [{'sends': [ev], 'forged': [{'victim': 'A0' if b0 & 1 else 'B', 'when': 'after' if b0 & 2 else 'before', 'raw': raw}]}]}
+            'waves': [{'sends': [ev], 'forged': [{'victim': 'A0' if b0 & 1 else 'B', 'when': 'after' if b0 & 2 else 'before',
+                                                'chase': bool(b0 & 4), 'raw': raw}]}]}
 
 
 def seed_corpus():
@@ -476,7 +477,7 @@ def seed_corpus():
             'channels': ['c0'], 'meta': {'x_meta': 1}}
     value = {'id': -1, 'errors': False, 'value': {'r': 1}, 'meta': {'x_meta': 1}}
     out = []
-    for b0 in (0, 1):
+    for b0 in (0, 1, 4, 5):
         for pkt in (call, value, dict(call, meta={'cause': 1}), dict(call, channels=[['c0']]), dict(value, id=[1])):
             text = json.dumps(pkt).encode()
             out.append(bytes([b0, 0]) + text)
